@@ -12,7 +12,8 @@ EXPLANATION = (
     "applies the rewriter to slices that partition the text; the write-back into the tree is dominated by the length assertion, "
     "slices by segment length, advances for every segment, and writes only into nodes proven RawText (isinstance on every "
     "path; CodeSpan / InlineHTML / Literal / LineBreak segments carry None); the container table excludes code, HTML, literal, "
-    "autolink and ref-def classes (MRO aware); text is coalesced before rewriting; the option influences only its guarded call. "
+    "autolink and ref-def classes (MRO aware); text is coalesced before rewriting; the option influences only its guarded call; the quote pass is not preceded by the "
+    "ellipsis pass (R-REWRITE-order). "
     "Not decided: 'same line breaks as with the option off' after wrapping."
 )
 
